@@ -384,7 +384,10 @@ func (s *Server) getUpdate(ctx context.Context, targetInfo *targetInfo, prefix *
 	}
 
 	filteredValues := make([]*configapi.PathValue, 0)
-	pathRegexp := utils.MatchWildcardRegexp(pathInfo.pathAsString, false)
+	pathRegexp, err := utils.CompileWildcardRegexp(pathInfo.pathAsString, false)
+	if err != nil {
+		return nil, errors.NewInvalid("invalid request - path cannot be matched: too many wildcards")
+	}
 	for _, cv := range configValuesAllowed {
 		if pathRegexp.MatchString(cv.Path) && !cv.Deleted {
 			filteredValues = append(filteredValues, cv)
